@@ -113,23 +113,28 @@ def check(ctx):
                                    func=f, sig="%s featuretype filter: %s" % (meth, "; ".join(p2) if p2 else "ok"),
                                    nontrivial=False)
 
-    # forwarding of keyword arguments by the public callers
+    # forwarding by the public callers: the statement they execute, and its bound values, are those make_query builds from
+    # the same arguments (evaluated abstractly, whatever helpers sit in between)
+    from ..absint import Opaque, Unsupported
+    rep = dict(limit=("chr", Sym("S", "int", True), Sym("E", "int", True)), strand=Sym("strand", "str", True), featuretype=Sym("ft", "str", True),
+               order_by="start", reverse=True, completely_within=True)
+    norm_sql = lambda q: " ".join((q.render() if hasattr(q, "render") else str(q)).split())
+    names = lambda a: tuple(getattr(x, "name", x) for x in (a or ()))
     for qual in ("interface.FeatureDB.all_features", "interface.FeatureDB.features_of_type"):
         f = require_func(ctx, qual)
-        mq_calls = [c for c in calls_in(f.node) if proj.resolve_call(c, f)[1] == "helpers.make_query"]
-        ctx.require(mq_calls, "%s no longer calls helpers.make_query" % qual)
-        for c in mq_calls:
-            for p in [p for p in f.params if p != "self"]:
-                v = kwarg(c, p)
-                ok = isinstance(v, ast.Name) and v.id == p
-                ctx.ob("R1", ok, "%s forwards its `%s` argument to make_query(%s=...)" % (f.name, p, p), node=c, func=f,
-                       sig="%s forwards %s" % (f.name, p) if ok else "%s does not forward %s (passes %s)" % (
-                           f.name, p, ctx.norm(v) if v is not None else "nothing"))
-            a = kwarg(c, "args")
-            ok = isinstance(a, ast.List) and not a.elts
-            ctx.ob("R1", ok, "%s starts make_query with an empty argument list" % f.name, node=c, func=f,
-                   sig="%s args=[]" % f.name if ok else "%s args=%s" % (f.name, ctx.norm(a) if a is not None else None))
-
+        ps = [p for p in f.params if p != "self"]
+        for variant, a in (("all arguments", {k: v for k, v in rep.items() if k in ps}), ("defaults", {k: v for k, v in rep.items() if k in ps and k == "featuretype"})):
+            try:
+                got = it.run(f, dict(a), self_obj=Opaque("self", "obj"))
+                ref = it.run(mq, dict(args=[], **a))
+            except Unsupported as e:
+                ctx.require(False, "%s outside the analysable subset: %s" % (qual, e))
+            want = sorted({(norm_sql(t.result[1][0]), names(t.result[1][1])) for t in ref if t.result[0] == "return"})
+            have = sorted({(norm_sql(e[1]), names(e[2])) for t in got for e in t.executes()})
+            ok = bool(want) and have == want
+            ctx.ob("R1", ok, "%s runs exactly the statement make_query builds from its arguments, with the same bound values (%s)" % (f.name, variant), func=f,
+                   sig="%s forwards %s" % (f.name, variant) if ok else "%s (%s) executes %s, make_query builds %s" % (f.name, variant, [h[0][-60:] + " " + str(h[1]) for h in have][:2],
+                                                                                                                        [w[0][-60:] + " " + str(w[1]) for w in want][:2]))
     _r3_counts(ctx)
 
 
@@ -225,44 +230,54 @@ def _check_trace(ctx, t, label, ft, lim, strand, ob, rev, on, valid_spec, select
 
 
 def _r3_counts(ctx):
-    proj = ctx.proj
-    sites = {}
-    for s in execute_sites(ctx, [f for f in proj.funcs.values() if f.module.name == "interface"]):
-        sites.setdefault(s.func.name, []).append(s)
-    # count_features_of_type
+    """Counts and distinct listings, judged on the statements their abstract evaluation executes."""
+    from ..absint import Opaque, Interp, Unsupported
+    it = interp_for(ctx)
     f = require_func(ctx, "interface.FeatureDB.count_features_of_type")
-    ss = sites.get("count_features_of_type", [])
-    ctx.floor("R3", len(ss), 1, "count statements in count_features_of_type")
+    p = [x for x in f.params if x != "self"][0]
     n_filtered = 0
-    for s in ss:
-        st = s.stmts[0] if s.stmts else None
-        ok = st is not None and st.verb == "SELECT" and st.tables() == ["features"] and len(st.cols) == 1 \
-            and st.cols[0][0][0] == "call" and st.cols[0][0][1] == "count" \
-            and (not st.cols[0][0][2] or st.cols[0][0][2][0][0] == "star")
-        ctx.ob("R3", ok, "count_features_of_type counts rows of `features` (count() / count(*))", node=s.call, func=f,
-               sig="count statement ok" if ok else "count statement: %s" % " ".join(s.sql.text.split()))
-        if st is not None and st.where is not None:
-            n_filtered += 1
-            conj = S.conjuncts(st.where)
-            ok = len(conj) == 1 and conj[0][0] == "cmp" and conj[0][1] == "=" and \
-                {conj[0][2][0], conj[0][3][0]} == {"col", "param"} and \
-                (conj[0][2] if conj[0][2][0] == "col" else conj[0][3])[2].lower() == "featuretype"
-            ctx.ob("R3", ok, "the filtered count compares `featuretype` with the argument, like features_of_type", node=s.call,
-                   func=f, sig="count filter featuretype = ?" if ok else "count filter: %s" % S.show(st.where))
-            p = s.params
-            okp = isinstance(p, ast.Tuple) and len(p.elts) == 1 and isinstance(p.elts[0], ast.Name) and p.elts[0].id == "featuretype"
-            ctx.ob("R3", okp, "the filtered count binds the featuretype argument", node=s.call, func=f,
-                   sig="count binds (featuretype,)" if okp else "count binds %s" % (ctx.norm(p) if p is not None else None))
-    ctx.ob("R3", n_filtered >= 1, "count_features_of_type has a featuretype-filtered statement", func=f,
-           sig="filtered count present" if n_filtered else "no filtered count statement")
+    for label, ft in (("no featuretype", None), ("a featuretype", Sym("ft", "str", True))):
+        try:
+            traces = it.run(f, {p: ft}, self_obj=Opaque("self", "obj"))
+        except Unsupported as e:
+            ctx.require(False, "count_features_of_type outside the analysable subset: %s" % e)
+        exs = {(" ".join(str(e[1].render() if hasattr(e[1], "render") else e[1]).split()), tuple(getattr(x, "name", x) for x in (e[2] or ()))) for t in traces for e in t.executes()}
+        ctx.ob("R3", len(exs) == 1, "count_features_of_type runs one statement (%s)" % label, func=f, sig="count (%s): %d distinct statement(s)" % (label, len(exs)), nontrivial=False)
+        for text, params in sorted(exs):
+            try:
+                st = S.parse(text)
+            except S.SQLError as e:
+                ctx.ob("R3", False, "the count statement parses", func=f, sig="count statement: %s" % e)
+                continue
+            ok = st.verb == "SELECT" and st.tables() == ["features"] and len(st.cols) == 1 and st.cols[0][0][0] == "call" and st.cols[0][0][1] == "count" \
+                and (not st.cols[0][0][2] or st.cols[0][0][2][0][0] == "star")
+            ctx.ob("R3", ok, "count_features_of_type counts rows of `features` (count() / count(*))", func=f, sig="count statement ok" if ok else "count statement: %s" % text)
+            if ft is None:
+                ctx.ob("R3", st.where is None and not params, "without a featuretype every row is counted", func=f, sig="unfiltered count" if st.where is None else "count filter: %s" % S.show(st.where),
+                       nontrivial=False)
+            else:
+                n_filtered += 1
+                conj = S.conjuncts(st.where) if st.where is not None else []
+                ok = len(conj) == 1 and conj[0][0] == "cmp" and conj[0][1] in ("=", "==") and {conj[0][2][0], conj[0][3][0]} == {"col", "param"} and \
+                    (conj[0][2] if conj[0][2][0] == "col" else conj[0][3])[2].lower() == "featuretype"
+                ctx.ob("R3", ok, "the filtered count compares `featuretype` with the argument, like features_of_type", func=f,
+                       sig="count filter featuretype = ?" if ok else "count filter: %s" % (S.show(st.where) if st.where is not None else None))
+                ctx.ob("R3", params == ("ft",), "the filtered count binds the featuretype argument", func=f, sig="count binds (featuretype,)" if params == ("ft",) else "count binds %s" % (params,))
+    ctx.ob("R3", n_filtered >= 1, "count_features_of_type has a featuretype-filtered statement", func=f, sig="filtered count present" if n_filtered else "no filtered count statement")
     for name, col in (("featuretypes", "featuretype"), ("seqids", "seqid")):
-        f = require_func(ctx, "interface.FeatureDB." + name)
-        ss = sites.get(name, [])
-        ctx.floor("R3", len(ss), 1, "statements in %s" % name)
-        for s in ss:
-            st = s.stmts[0] if s.stmts else None
-            ok = st is not None and st.verb == "SELECT" and st.distinct and st.tables() == ["features"] \
-                and len(st.cols) == 1 and st.cols[0][0][0] == "col" and st.cols[0][0][2].lower() == col \
+        g = require_func(ctx, "interface.FeatureDB." + name)
+        try:
+            traces = it.run(g, {}, self_obj=Opaque("self", "obj"))
+        except Unsupported as e:
+            ctx.require(False, "%s outside the analysable subset: %s" % (name, e))
+        exs = {" ".join(str(e[1].render() if hasattr(e[1], "render") else e[1]).split()) for t in traces for e in t.executes()}
+        ctx.floor("R3", len(exs), 1, "statements in %s" % name)
+        for text in sorted(exs):
+            try:
+                st = S.parse(text)
+            except S.SQLError as e:
+                ctx.ob("R3", False, "%s statement parses" % name, func=g, sig="%s: %s" % (name, e))
+                continue
+            ok = st.verb == "SELECT" and st.distinct and st.tables() == ["features"] and len(st.cols) == 1 and st.cols[0][0][0] == "col" and st.cols[0][0][2].lower() == col \
                 and st.where is None
-            ctx.ob("R3", ok, "%s() selects DISTINCT %s from features, unfiltered" % (name, col), node=s.call, func=f,
-                   sig="%s distinct %s" % (name, col) if ok else "%s: %s" % (name, " ".join(s.sql.text.split())))
+            ctx.ob("R3", ok, "%s() selects DISTINCT %s from features, unfiltered" % (name, col), func=g, sig="%s distinct %s" % (name, col) if ok else "%s: %s" % (name, text))
